@@ -1,4 +1,4 @@
-import ApolloModel.Proofs.ParserTree36
+import ApolloModel.Proofs.ParserTree42
 import ApolloModel.Proofs.ParserComplete30
 import ApolloModel.Proofs.ParserTreeDef13
 import ApolloModel.Proofs.ParserTreeInj2
@@ -1069,6 +1069,184 @@ theorem parsed_document_roundtrip_same_limit (rl : Nat) (src : Parse.Str) (root 
     | cons x r =>
       rw [hD] at hn hi hf hdf hwfm
       obtain ⟨e1, root2, e2, e3⟩ := pipeline_print_parse_document_closed pre level x r (wfDefinitions_of_mem _ hwfm) hpre hn hi hf rl hdf
+      exact ⟨e1, root2, e2, e3, by rw [e3]⟩
+
+/-- **step (3): `pipeline_print_parse_document_closed` over the EXACT recursion budget.**  The same statement with
+    `Parse.Exact.definitionFit rl` (builderB's exact guards: `vdepth`, the empty literals `[]` / `{}` cost nothing) in place of
+    the charged `Parse.definitionFit rl`: the combined loop, the strict-document theorem and the follow guard of a printed
+    document are repeated over the exact completeness calculus (Proofs/ParserTree37-38, `Exact.parseDocument_complete_items`). -/
+theorem pipeline_print_parse_document_exact (pre : Option Ast.Str) (level : Nat) (d : Definition) (r : List Definition)
+    (hwf : wfDefinitions (d :: r) = true) (hpre : ∀ p, pre = some p → p.all Apollo.Strs.isWs = true)
+    (hn : NamesWf (docSegs pre level (d :: r))) (hi : IntsSpec (docSegs pre level (d :: r)))
+    (hf : FloatsSpec (docSegs pre level (d :: r)))
+    (rl : Nat) (hfit : ∀ x ∈ d :: r, Parse.Exact.definitionFit rl x) :
+    (parse .document none rl (serializeDocument pre level (d :: r)).out).errors = [] ∧
+    ∃ root, (parse .document none rl (serializeDocument pre level (d :: r)).out).outcome = .tree root ∧
+      (FromCst.fromCst root).1 = d :: r := by
+  have hlex := text_lexes_back_full pre level (d :: r) hpre hn hi hf
+  rw [toksOf_cDocument] at hlex
+  obtain ⟨hclean, ts, e, hsig, he, hx⟩ := (Parse.sigToks_src_iff _ _).mp hlex
+  obtain ⟨hstrict, htoks⟩ := printed_document_items_strict (outputEmptyAtStart pre level) d r hwf
+  have hw : ∀ a ∈ ((Parse.itemFlag (outputEmptyAtStart pre level) d, d) :: r.map (fun x => (false, x)) : List (Bool × Definition)),
+      wfDefinition a.2 = true := by
+    intro a ha
+    rcases List.mem_cons.mp ha with rfl | ha
+    · exact wfDefinitions_mem _ hwf d (by simp)
+    · obtain ⟨x, hx', rfl⟩ := List.mem_map.mp ha
+      exact wfDefinitions_mem _ hwf x (by simp [hx'])
+  obtain ⟨herr, root, hroot, hconv⟩ := Parse.Exact.pipeline_strict_document rl _ (Parse.itemsOfDocument (outputEmptyAtStart pre level) (d :: r)) _
+    hstrict hw (by simp [Parse.itemsOfDocument])
+    (Parse.Exact.itemFit_itemsOfDocument rl _ (d :: r) hfit) (Parse.Exact.docFollowOk_of_printed _ (d :: r) (wfDefinitions_mem _ hwf)) ts e hclean hsig he
+    (by rw [htoks]; exact hx)
+  refine ⟨herr, root, hroot, ?_⟩
+  rw [hconv]
+  simp [List.map_map, Function.comp_def]
+
+
+/-- **parsed_document_roundtrip at the same recursion limit, EXACT guard** (steps (2) and (3) done): as
+    `parsed_document_roundtrip_same_limit`, with the hypothesis on the parser's own items weakened to the sound-side guard
+    `Parse.Exact.itemFitX rl` — the guard `document_accept_sound_exact_unconditional` establishes (`itemFitX → itemFit` on
+    strict items: `Parse.Exact.itemFit_of_itemFitX_strict`, all root names present). -/
+theorem parsed_document_roundtrip_same_limit_exact (rl : Nat) (src : Parse.Str) (root : Elem)
+    (h : (parse .document none rl src).outcome = .tree root) (herr : (parse .document none rl src).errors = []) :
+    ∃ its : List Parse.DocItem, sigToks (Apollo.Lex.lex none src) = some (Parse.docToks its) ∧
+      (FromCst.fromCst root).1 = its.map Parse.DocItem.conv ∧
+      (Parse.strictItems its = none ∨
+       ((∀ i ∈ its, Parse.Exact.itemFitX rl i) →
+        ∀ (pre : Option Ast.Str) (level : Nat), (∀ p, pre = some p → p.all Apollo.Strs.isWs = true) →
+          (parse .document none rl (serializeDocument pre level (FromCst.fromCst root).1).out).errors = [] ∧
+          ∃ root2, (parse .document none rl (serializeDocument pre level (FromCst.fromCst root).1).out).outcome = .tree root2 ∧
+            (FromCst.fromCst root2).1 = (FromCst.fromCst root).1 ∧
+            (serializeDocument pre level (FromCst.fromCst root2).1).out =
+              (serializeDocument pre level (FromCst.fromCst root).1).out)) := by
+  obtain ⟨hclean, ts, e, its, h1, h2, h3, h4, h5, h6, h7⟩ := Parse.parseDocument_agrees rl src root h herr
+  refine ⟨its, (Parse.sigToks_src_iff src _).mpr ⟨hclean, ts, e, h1, h2, h4⟩, h6, ?_⟩
+  cases hs : Parse.strictItems its with
+  | none => exact Or.inl rfl
+  | some items =>
+    right
+    intro hfitX pre level hpre
+    have hfit : ∀ i ∈ its, Parse.Exact.itemFit rl i := by
+      intro i hi
+      have : ∃ a, i.strict = some a := by
+        clear hfitX h7 h6 h5 h4 h3
+        induction its generalizing items with
+        | nil => cases hi
+        | cons j r ih =>
+          simp only [Parse.strictItems] at hs
+          cases hj : j.strict with
+          | none => rw [hj] at hs; simp at hs
+          | some a =>
+            cases hr : Parse.strictItems r with
+            | none => rw [hj, hr] at hs; simp at hs
+            | some b =>
+              rcases List.mem_cons.mp hi with rfl | hi'
+              · exact ⟨a, hj⟩
+              · exact ih b hr hi'
+      obtain ⟨a, ha⟩ := this
+      exact Parse.Exact.itemFit_of_itemFitX_strict rl i a ha (hfitX i hi)
+    obtain ⟨a, b, c, dd, _⟩ := h7 items hs
+    have hok : ∀ t ∈ itemsToks items, Parse.TokOkA t :=
+      Parse.tokOkA_of_src src hclean ts e h1 (itemsToks items) (by rw [← b]; exact h4)
+    have hdf := Parse.Exact.definitionFit_of_strict_items rl its items hs hfit
+    rw [dd]
+    have hwfm : ∀ x ∈ items.map (·.2), wfDefinition x = true := by
+      intro x hx
+      obtain ⟨i, hi, rfl⟩ := List.mem_map.mp hx
+      exact c i hi
+    obtain ⟨hn, hi, hf⟩ := Parse.segs_hyps_of_toks pre level (items.map (·.2))
+      (Parse.tokOkA_printed (outputEmptyAtStart pre level) items hok)
+    cases hD : items.map (·.2) with
+    | nil => exact absurd hD (by simpa using a)
+    | cons x r =>
+      rw [hD] at hn hi hf hdf hwfm
+      obtain ⟨e1, root2, e2, e3⟩ := pipeline_print_parse_document_exact pre level x r (wfDefinitions_of_mem _ hwfm) hpre hn hi hf rl hdf
+      exact ⟨e1, root2, e2, e3, by rw [e3]⟩
+
+/-- **parsed_document_roundtrip_unconditional, executable documents.**  For EVERY source that `Parser::parse` (model; no
+    token limit) accepts with zero errors at recursion limit `rl` and whose tree holds executable definitions only
+    (`ExecRoot`), with `D = Document::from_cst` of the tree: for every configuration, serializing `D` and parsing the text
+    again AT THE SAME `rl` gives NO errors and an EQUAL AST, and serializing the re-parsed AST gives BYTE-IDENTICAL text.
+    NO hypothesis is left — no `definitionFit`, no syntax hypothesis on names or numbers, no liberty case (executable items
+    are always strict).  Step (1) for executable definitions: the tree calculus and builderB / builderD's exact soundness
+    calculus run on the SAME dispatch run (`Parse.docLoop_trS`, `Parse.parseDocument_cstS`), the exact budget implies
+    well-formedness (`Parse.Exact.execFit_wf`), so the two views of an item are the same definition
+    (`Parse.Exact.exec_item_fit`) and each definition of `D` is within the exact budget of the accepted run. -/
+theorem parsed_document_roundtrip_unconditional_executable (rl : Nat) (src : Parse.Str) (root : Elem)
+    (h : (parse .document none rl src).outcome = .tree root) (herr : (parse .document none rl src).errors = [])
+    (hexec : Parse.ExecRoot root) (pre : Option Ast.Str) (level : Nat)
+    (hpre : ∀ p, pre = some p → p.all Apollo.Strs.isWs = true) :
+    (parse .document none rl (serializeDocument pre level (FromCst.fromCst root).1).out).errors = [] ∧
+    ∃ root2, (parse .document none rl (serializeDocument pre level (FromCst.fromCst root).1).out).outcome = .tree root2 ∧
+      (FromCst.fromCst root2).1 = (FromCst.fromCst root).1 ∧
+      (serializeDocument pre level (FromCst.fromCst root2).1).out =
+        (serializeDocument pre level (FromCst.fromCst root).1).out := by
+  obtain ⟨hclean, ts, e, its, h1, h2, h3, h4, h5, h6⟩ := Parse.Exact.parseExecutableDocument_fit rl src root h herr hexec
+  have hok : ∀ t ∈ itemsToks its, Parse.TokOkA t := Parse.tokOkA_of_src src hclean ts e h1 (itemsToks its) h4
+  rw [h6]
+  have hwfm : ∀ x ∈ its.map (·.2), wfDefinition x = true := by
+    intro x hx
+    obtain ⟨i, hi, rfl⟩ := List.mem_map.mp hx
+    exact (h5 i hi).1
+  have hdf : ∀ x ∈ its.map (·.2), Parse.Exact.definitionFit rl x := by
+    intro x hx
+    obtain ⟨i, hi, rfl⟩ := List.mem_map.mp hx
+    exact (h5 i hi).2
+  obtain ⟨hn, hi, hf⟩ := Parse.segs_hyps_of_toks pre level (its.map (·.2))
+    (Parse.tokOkA_printed (outputEmptyAtStart pre level) its hok)
+  cases hD : its.map (·.2) with
+  | nil => exact absurd hD (by simpa using h3)
+  | cons x r =>
+    rw [hD] at hn hi hf hdf hwfm
+    obtain ⟨e1, root2, e2, e3⟩ := pipeline_print_parse_document_exact pre level x r (wfDefinitions_of_mem _ hwfm) hpre hn hi hf rl hdf
+    exact ⟨e1, root2, e2, e3, by rw [e3]⟩
+
+/-- **parsed_document_roundtrip_unconditional — property C08 on the real pipeline model, no hypothesis left.**  For EVERY
+    source `src` that `Parser::parse` (model; no token limit) accepts with zero errors at recursion limit `rl`, with `root`
+    its tree and `D = Document::from_cst root`: EITHER the accepted text uses one of the two liberties of the parser
+    (`strictItems its = none` for the decomposition `its` of the run: a leading `&` / `|` in a separated list, or a root
+    operation type without its named type — the recorded C05 finding), OR, for EVERY configuration (white-space
+    indentation prefix or none, any level): serializing `D` and parsing the text again AT THE SAME `rl` gives NO errors
+    and an EQUAL AST (`from_cst` of the new tree is `D`), and serializing the re-parsed AST gives BYTE-IDENTICAL text.
+    No `definitionFit` hypothesis, no hypothesis on names or numbers.  The three steps: (1) the tree calculus and the
+    exact soundness calculus of C05 run on the SAME dispatch run (`Parse.docLoop_trS`); the exact budget implies the
+    well-formedness facts (`Exact.execFit_wf`, `Exact.looseFitX_wf`), so the two views of an item are the same item
+    (`Exact.exec_item_fit`, `Exact.loose_item_fit` through builderA's `loose_tokens_strict`) and every strict item is
+    within the exact budget `rl` of the accepted run; (2) `Exact.itemFit_of_itemFitX_strict`; (3) the closed print-parse
+    theorem over the exact budget (`pipeline_print_parse_document_exact`). -/
+theorem parsed_document_roundtrip_unconditional (rl : Nat) (src : Parse.Str) (root : Elem)
+    (h : (parse .document none rl src).outcome = .tree root) (herr : (parse .document none rl src).errors = []) :
+    (∃ its : List Parse.DocItem, sigToks (Apollo.Lex.lex none src) = some (Parse.docToks its) ∧
+        (FromCst.fromCst root).1 = its.map Parse.DocItem.conv ∧ Parse.strictItems its = none) ∨
+    ((FromCst.fromCst root).1 ≠ [] ∧ wfDefinitions (FromCst.fromCst root).1 = true ∧
+      ∀ (pre : Option Ast.Str) (level : Nat), (∀ p, pre = some p → p.all Apollo.Strs.isWs = true) →
+        (parse .document none rl (serializeDocument pre level (FromCst.fromCst root).1).out).errors = [] ∧
+        ∃ root2, (parse .document none rl (serializeDocument pre level (FromCst.fromCst root).1).out).outcome = .tree root2 ∧
+          (FromCst.fromCst root2).1 = (FromCst.fromCst root).1 ∧
+          (serializeDocument pre level (FromCst.fromCst root2).1).out =
+            (serializeDocument pre level (FromCst.fromCst root).1).out) := by
+  obtain ⟨hclean, ts, e, its, h1, h2, h3, h4, h6, h7⟩ := Parse.Exact.parseDocument_agrees_fit rl src root h herr
+  cases hs : Parse.strictItems its with
+  | none =>
+    exact Or.inl ⟨its, (Parse.sigToks_src_iff src _).mpr ⟨hclean, ts, e, h1, h2, h4⟩, h6, hs⟩
+  | some items =>
+    right
+    obtain ⟨a, b, c, dd, hdf⟩ := h7 items hs
+    have hok : ∀ t ∈ itemsToks items, Parse.TokOkA t := Parse.tokOkA_of_src src hclean ts e h1 (itemsToks items) b
+    rw [dd]
+    have hwfm : ∀ x ∈ items.map (·.2), wfDefinition x = true := by
+      intro x hx
+      obtain ⟨i, hi, rfl⟩ := List.mem_map.mp hx
+      exact c i hi
+    refine ⟨by simpa using a, wfDefinitions_of_mem _ hwfm, ?_⟩
+    intro pre level hpre
+    obtain ⟨hn, hi, hf⟩ := Parse.segs_hyps_of_toks pre level (items.map (·.2))
+      (Parse.tokOkA_printed (outputEmptyAtStart pre level) items hok)
+    cases hD : items.map (·.2) with
+    | nil => exact absurd hD (by simpa using a)
+    | cons x r =>
+      rw [hD] at hn hi hf hdf hwfm
+      obtain ⟨e1, root2, e2, e3⟩ := pipeline_print_parse_document_exact pre level x r (wfDefinitions_of_mem _ hwfm) hpre hn hi hf rl hdf
       exact ⟨e1, root2, e2, e3, by rw [e3]⟩
 
 end PropertyStatement
